@@ -393,6 +393,9 @@ func (w *World) Deadlocked() []*Task {
 	return out
 }
 
+// Alive reports whether the task can still run (not finished, not killed).
+func (t *Task) Alive() bool { return !t.Done && !t.dead }
+
 // PendingKind returns the kind of the operation a task is parked on.
 func (t *Task) PendingKind() string {
 	if t.pending == nil {
